@@ -119,7 +119,7 @@ extern "C" void proof_append() {
     if (i < T) {
       VASSERT(C07, d.tasks._items[i].origin == o && d.tasks._items[i].destination == dst && d.tasks._items[i].type == ty, "append stores origin, destination and kind");
 #ifdef VP_PAYLOAD
-      VASSERT(C07/C14, d.payloadExists.get(i) && d.taskPayloads[i] == pay, "append stores the payload with the task");
+      VASSERT(C07/C14, d.tasks._items[i].payload() != nullptr && *d.tasks._items[i].payload() == pay, "append stores the payload with the task");   // (the payload lives in the task itself; PlanDataT::taskPayloads/payloadExists are never written)
 #endif
     }
     if (j != i && !tl_vacant(old.tasks, j)) {
@@ -154,7 +154,7 @@ extern "C" void proof_iterate() {
   VASSUME(wf_plans(d, g));
   const int r = nd_u8(); VASSUME(r < R);
   const int len = plan_len(d, g, r);
-  if (len > 1) VREACH("plan with several tasks");
+  VREACH("well-formed plan store, any region"); if (len > 1) VREACH("plan with several tasks");
   int n = 0; bool ok = true;
   { CPlan cp{d, (RegionID) r};      // (R_::plan() const does not compile in /repo: it passes three arguments to CPlanT's two-argument constructor)
     for (auto it = cp.begin(); it; ++it) { const Long c = it._curr; ok = ok && c < T && !tl_vacant(d.tasks, c) && g.owner[c] == r && g.pos[c] == n && &*it == &d.tasks._items[c]; ++n; if (n > T) break; }
